@@ -6,12 +6,13 @@
 // does inline in each completion (te::consumer = sc::consumer + get_scheduler on its receivers, which
 // the virtual get_scheduler() of type_erased_stream's receiver wrappers needs in order to compile).
 //
-// program:  <script> <stop|nostop>
+// program:  <script> <stop|nostop> [cerr]
 //   script   how thread A completes the successive next() operations of the SOURCE stream:
 //            v = value (100, 101, ...), d = done, e = error (code 7); when the script is used up: d.
 //            (the scripted source ignores stop requests: an abandoned next() stays outstanding until A
 //            completes it; "-" = empty script)
 //   stop     thread C requests stop on the consumer's stop source at any time
+//   cerr     the source's cleanup() completes with an error (code 9) instead of done
 // threads: 0 = the first start_next() of the consumer; 1 = A (completes the source's next()s per the
 // script while the consumer keeps asking, then the source's cleanup()); 2 = C; 3 = finaliser (blocked
 // until the consumer finished and the others are done).  Every later step of the consumer runs inline
@@ -155,7 +156,7 @@ void hooks::on_finished() {
   dsched::action("stream.destroyed");
 }
 
-std::vector<std::function<void()>> make_threads(const std::string& script, bool stop) {
+std::vector<std::function<void()>> make_threads(const std::string& script, bool stop, bool cerr) {
   auto sh = std::make_shared<Shared>();
   sc::G = sh.get(); S = sh.get();
   std::vector<std::function<void()>> th;
@@ -175,7 +176,7 @@ std::vector<std::function<void()>> make_threads(const std::string& script, bool 
     sh->done[0] = true;
   });
   // 1: A
-  th.push_back([sh, script] {
+  th.push_back([sh, script, cerr] {
     std::size_t i = 0;
     for (;;) {
       dsched::block_until([&] { return sh->nctl[0].outstanding || sh->cctl[0].outstanding || sh->cons_finished; });
@@ -184,7 +185,7 @@ std::vector<std::function<void()>> make_threads(const std::string& script, bool 
         sh->nctl[0].complete(k, k == 'v' ? 100 + (int)i : 7);
         ++i;
       } else if (sh->cctl[0].outstanding) {
-        sh->cctl[0].complete('d');
+        if (cerr) sh->cctl[0].complete('e', 9); else sh->cctl[0].complete('d');
       } else {
         break;
       }
@@ -216,7 +217,8 @@ int main(int argc, char** argv) {
   std::string script = cli.prog.at(0);
   if (script == "-") script = "";
   bool stop = cli.prog.size() > 1 && cli.prog[1] == "stop";
-  auto make = [&] { return make_threads(script, stop); };
+  bool cerr = cli.prog.size() > 2 && cli.prog[2] == "cerr";
+  auto make = [&] { return make_threads(script, stop, cerr); };
   // Direct monitor: the property evaluated on the implementation's own run.  The verdict starts with a
   // tag; the props module turns it into the violation key.
   auto monitor = [&](const dsched::Result& r) -> std::string {
@@ -233,6 +235,7 @@ int main(int argc, char** argv) {
     bool src_alive = false, src_out = false, cleanup_started = false, cleanup_done = false, destroyed = false;
     bool won = false, fwd_set = false, fwd_end = false;   // this round: callback took a reference / forwarded stop
     int won_tid = -1, completions = 0, last_src_v = -1, src_starts = 0;
+    std::string cleanup_res;
     char src_kind = '?';          // how the source's next() of this round completed
     bool src_sub_last = false, cb_sub_last = false, src_sub_seen = false, cb_sub_seen = false;
     for (auto& e : r.trace) {
@@ -306,9 +309,10 @@ int main(int argc, char** argv) {
         if (cleanup_started) return "CLEANUP: cleanup(source) started twice";
         if (!saw_end) return "CLEANUP: cleanup started although the last next() delivered a value";
         cleanup_started = true;
-      } else if (starts_with(rest, "!src.cleanup.complete")) cleanup_done = true;
+      } else if (starts_with(rest, "!src.cleanup.complete")) { cleanup_done = true; cleanup_res = rest.substr(22); }
       else if (starts_with(rest, "!cons.cleanup ") ) {
         if (!cleanup_done) return "CLEANUP: cleanup() completed before cleanup(source) completed";
+        if (rest.substr(14) != cleanup_res) return "CLEANUP: cleanup() completed with '" + rest.substr(14) + "' but cleanup(source) with '" + cleanup_res + "'";
         if (sc_.index("src.cleanup.dtor") < 0) return "CLEANUP: wrapped cleanup-op never destroyed";
       } else if (rest == "!cons.finished") {
         if (!destroyed) return "END: finished without the stream being destroyed";
